@@ -284,11 +284,10 @@ func runProperty(prop, tier string) int {
 					continue
 				}
 			case "panic":
-				confirmed = res.Panic != "" || res.Timeout
+				// only a crash that shows natively counts (a native run that merely took long
+				// on a loaded machine confirms nothing)
+				confirmed = res.Panic != ""
 				labels = []string{"panic"}
-				if res.Timeout {
-					labels = []string{"timeout"}
-				}
 				if len(res.Failed) > 0 { // path reached an assertion failure instead
 					confirmed = true
 					labels = res.Failed
